@@ -260,7 +260,7 @@ Proof.
   2:{ destruct (r_outs r) as [|f [|? ?]]; try discriminate. destruct (frame_eqb f (reply_nak c m)) eqn:F; cbn; [|discriminate]. intros _. eauto. }
   destruct (negb (lease =? desired)).
   { destruct (r_outs r) as [|f [|? ?]]; try discriminate. destruct (frame_eqb f (reply_nak c m)) eqn:F; cbn; [|discriminate]. intros _. eauto. }
-  destruct (t_hold_client (c_db c) (r_t r) (Some lease) (get_duid c (d_chaddr m) (o_cid o)) hold_ns t) as [okh t1].
+  destruct (t_hold_client (c_db c) (r_t r) (Some lease) (get_duid c (d_chaddr m) (o_cid o)) req_hold_ns t) as [okh t1].
   destruct (negb okh); [discriminate|].
   destruct (probe_outcome (r_arp r) (d_chaddr m) lease) as [free cost]. cbn [fst].
   destruct free; cbn [negb].
